@@ -305,6 +305,41 @@ def external_entities_in_declarations():
     return bad, n
 
 
+SAME_A = {"src/shapes.f90": ("module shapes\n  !! first module of A\n  implicit none\n  type :: circle\n    !! a circle\n    integer :: n\n  contains\n    procedure :: area => circle_area\n  end type circle\n"
+                             "contains\n  subroutine init()\n    !! init of shapes\n  end subroutine init\n  subroutine circle_area(self)\n    class(circle) :: self\n  end subroutine circle_area\nend module shapes\n"),
+          "src/solids.f90": ("module solids\n  !! second module of A\n  implicit none\n  type :: sphere\n    !! a sphere\n    integer :: n\n  contains\n    procedure :: area => sphere_area\n  end type sphere\n"
+                             "contains\n  subroutine init()\n    !! init of solids\n  end subroutine init\n  subroutine sphere_area(self)\n    class(sphere) :: self\n  end subroutine sphere_area\nend module solids\n")}
+SAME_B = {"src/b.f90": ("module b_mod\n  !! B uses the second module only, see [[sphere:area]] and [[sphere:n]]\n  use solids\n  implicit none\n  type, extends(sphere) :: ball\n    !! extends sphere\n  end type ball\n"
+                        "contains\n  subroutine work()\n    !! calls solids' init\n    call init()\n  end subroutine work\nend module b_mod\n")}
+
+
+def same_names_in_a():
+    """A has two modules with a procedure `init`, and two types with a component `n` and a binding `area`; B uses the second module only: its links lead to the second module's
+    entities (`proc/init~2.html`, `type/sphere.html#...~2`), never to the namesakes of the first"""
+    os.makedirs(realrun.TMPROOT, exist_ok=True)
+    sb = tempfile.mkdtemp(dir=realrun.TMPROOT)
+    try:
+        with site.site(SAME_A, META_A, sandbox=sb, proj="A") as (pa, sa):
+            if not sa.startswith("ok"):
+                return [f"building A failed: {sa}"]
+            adoc = os.path.join(pa, "doc")
+            with site.site(SAME_B, META_B, sandbox=sb, proj="B") as (pb, sbst):
+                if not sbst.startswith("ok"):
+                    return [f"building B against A failed: {sbst[:300]}"]
+                bad, n = check_b_links(os.path.join(pb, "doc"), adoc, {"init": "proc/init~2.html", "sphere": "type/sphere.html"}, {"ball", "work", "b_mod"})
+                # no link of B may lead to the first module's namesakes
+                for d, _, ff in os.walk(os.path.join(pb, "doc")):
+                    for f in ff:
+                        if f.endswith(".html"):
+                            t = open(os.path.join(d, f), encoding="utf-8", errors="replace").read()
+                            for wrong in ("proc/init.html", "type/circle.html"):
+                                if "A/doc/" + wrong in t or "../A/doc/" + wrong in t:
+                                    bad.append(f"{os.path.relpath(os.path.join(d, f), os.path.join(pb, 'doc'))}: links to A's {wrong}, an entity of module shapes that B does not use")
+                return bad
+    finally:
+        shutil.rmtree(sb, ignore_errors=True)
+
+
 def search(parts=("end_to_end", "broken", "absolute", "remote")):
     for part in parts:
         if part == "end_to_end":
@@ -316,6 +351,8 @@ def search(parts=("end_to_end", "broken", "absolute", "remote")):
             bad = absolute_local_path()
         elif part == "declarations":
             bad, _ = external_entities_in_declarations()
+        elif part == "same_names":
+            bad = same_names_in_a()
         else:
             bad = remote_rebasing()
         if bad:
